@@ -113,6 +113,17 @@ fn main() {
         .and_then(|s| s.parse::<u64>().ok())
         .unwrap_or(if in_process_only { 150 } else { 900 });
     engine::start_watchdog(&ctx.id, std::time::Duration::from_secs(case_limit), ctx.seed, ctx.tier);
+    // Budgets (see engine.rs): the quick tier stops starting new cases after 600 s (its runs take
+    // one to two minutes on the unchanged tree) and spends at most 180 s in shrink candidates; the
+    // thorough tier has no deadline and an hour of shrinking.  Replays are never budgeted.
+    if replay.is_none() {
+        let env_u64 = |k: &str, d: u64| std::env::var(k).ok().and_then(|s| s.parse::<u64>().ok()).unwrap_or(d);
+        let (deadline, shrink) = match tier {
+            Tier::Quick => (env_u64("VERIF_SOFT_DEADLINE_S", 600), env_u64("VERIF_SHRINK_BUDGET_S", 180)),
+            Tier::Thorough => (env_u64("VERIF_SOFT_DEADLINE_S", 0), env_u64("VERIF_SHRINK_BUDGET_S", 3600)),
+        };
+        engine::set_budgets(deadline, shrink);
+    }
 
     let code = if let Some(path) = replay {
         props::replay(&ctx, &path)
